@@ -238,7 +238,12 @@ func run(r *vt.Run, t vt.TB, s spec) {
 				case 1:
 					exec(fmt.Sprintf("INSERT INTO %s (x, y) VALUES (%s, hex(zeroblob(%d)))", tm.name, v, o.B%700))
 				default:
-					exec(fmt.Sprintf("INSERT OR IGNORE INTO %s (k, v) VALUES ('k%s', %s)", tm.name, v, v))
+					if (o.B+i)%3 == 0 {
+						// (a value that spills to overflow pages of the WITHOUT ROWID tree)
+						exec(fmt.Sprintf("INSERT OR IGNORE INTO %s (k, v) VALUES ('k%s', hex(zeroblob(%d)))", tm.name, v, 40+(o.B*13+i*101)%900))
+					} else {
+						exec(fmt.Sprintf("INSERT OR IGNORE INTO %s (k, v) VALUES ('k%s', %s)", tm.name, v, v))
+					}
 				}
 			}
 			history = append(history, "insert:"+tm.name)
